@@ -1,5 +1,6 @@
 import Driver.Proto
 import PqModel.Merge
+import PqModel.MergeRanges
 
 namespace Driver.Ops.C09
 open Driver PqModel.Merge
@@ -7,11 +8,6 @@ open Driver PqModel.Merge
 /-- list of lists: parts separated by `/`, `.` = no part at all, `-` = empty part -/
 def parseLists? {α} (p : String → Option α) (s : String) : Option (List (List α)) :=
   if s == "." then some [] else (s.splitOn "/").mapM (parseList? p)
-
-def tagInputs (keys : List (List Int)) : List (List Row) :=
-  (List.range keys.length).map (fun i =>
-    let ks := keys.getD i []
-    (List.range ks.length).map (fun j => { key := ks.getD j 0, inp := i, seq := j }))
 
 def showRow (r : Row) : String := s!"{r.inp}:{r.seq}"
 def showBatch (b : List Row) : String := showList showRow b
@@ -37,6 +33,13 @@ def handle (toks : List String) : Option String :=
       let rows := w.map (fun k => ({ key := k, inp := 0, seq := 0 } : Row))
       s!"ok {runLength rows { key := b, inp := 0, seq := 0 } mx}"
     | _, _, _ => "bad-op"
+  | ["merge.segments", ins] => some <|
+    match parseLists? parseOptInt? ins with
+    | some ins =>
+      let segs := segmentsOf ins
+      let showSeg (seg : List (Nat × Nat)) : String := s!"{seg.length}:{(seg.map (·.2)).sum}"
+      s!"ok {showList showSeg segs}"
+    | none => "bad-op"
   | ["dedupe.run", bs] => some <|
     match parseLists? parseInt? bs with
     | some bs =>
